@@ -374,7 +374,21 @@ func (e *Eff) step(st *effFn) bool {
 					for len(st.sum.Ret) <= i {
 						st.sum.Ret = append(st.sum.Ret, pset{})
 					}
-					ch = e.exportRet(st, st.valRoots(r), st.sum.Ret[i]) || ch
+					vals := st.valRoots(r)
+					if isAddressOf(r, 0) {
+						// `return &o.f`: the result is the address of memory that existed before the call, not what that
+						// memory holds - marked so that the caller does not load through it
+						marked := pset{}
+						for o := range vals {
+							if isPrePath(o) && !strings.HasPrefix(o, "&") {
+								marked.add("&" + o)
+							} else {
+								marked.add(o)
+							}
+						}
+						vals = marked
+					}
+					ch = e.exportRet(st, vals, st.sum.Ret[i]) || ch
 				}
 			}
 		}
@@ -391,6 +405,25 @@ func (e *Eff) step(st *effFn) bool {
 		}
 	}
 	return ch
+}
+
+// isAddressOf: v is the address of a field or element (possibly merged from several).
+func isAddressOf(v ssa.Value, depth int) bool {
+	switch x := v.(type) {
+	case *ssa.FieldAddr, *ssa.IndexAddr:
+		return true
+	case *ssa.Phi:
+		if depth > 3 || len(x.Edges) == 0 {
+			return false
+		}
+		for _, e := range x.Edges {
+			if !isAddressOf(e, depth+1) {
+				return false
+			}
+		}
+		return true
+	}
+	return false
 }
 
 func isStructVal(t types.Type) bool {
@@ -674,6 +707,10 @@ func (e *Eff) exportRet(st *effFn, vals pset, dst pset) bool {
 // caller holds whatever the caller stored there.
 func (e *Eff) instantiate(st *effFn, path string, args []pset, fnVal pset, siteName string, referent bool) pset {
 	r := pset{}
+	addr := strings.HasPrefix(path, "&")
+	if addr {
+		path = path[1:]
+	}
 	root := rootOf(path)
 	elems := pathElems(path)
 	var base pset
@@ -730,7 +767,7 @@ func (e *Eff) instantiate(st *effFn, path string, args []pset, fnVal pset, siteN
 		}
 		cur = e.ext(cur, el)
 	}
-	if referent && len(elems) > 0 {
+	if referent && len(elems) > 0 && !addr {
 		cur = st.load(cur)
 	}
 	r.addAll(cur)
